@@ -401,6 +401,13 @@ func c05GenTimed(r *hx.RNG, engine string, production bool) c05TimedCase {
 		c.Timeout = time.Duration(r.Range(100, 900)) * ms
 		c.Delay = time.Duration(r.Range(1, 120)) * ms
 		c.Poll = time.Duration(r.Range(5, 150)) * ms
+		if r.Chance(1, 5) {
+			// the listening time per TTL is SHORTER than the send delay: the delay, not the window,
+			// then decides when the next probe of the serial engine may leave
+			c.Timeout = time.Duration(r.Range(8, 60)) * ms
+			c.Delay = c.Timeout + time.Duration(r.Range(20, 250))*ms
+			c.Poll = time.Duration(r.Range(2, 20)) * ms
+		}
 	}
 	c.Timeout += 250 * time.Nanosecond
 	count := c.Max - c.Min + 1
